@@ -3,6 +3,7 @@
 // Package c19 holds the harnesses of property C19 (queries never modify their input; copies
 // share nothing with the original). It is an overlay-only package: it sees goalign through its
 // exported API only, exactly like a client program.
+// verif-uses-rand: the replay build overlays math/rand so that recorded draws are replayed.
 package c19
 
 import (
@@ -30,11 +31,6 @@ func iupac(c uint8) bool {
 		return true
 	}
 	return c == '-'
-}
-
-// acgt: the four bases, N and the gap, upper case.
-func acgt(c uint8) bool {
-	return c == 'A' || c == 'C' || c == 'G' || c == 'T' || c == 'N' || c == '-'
 }
 
 // snap is what a client can observe of a sequence set: names, residues, alignment length, alphabet.
@@ -99,6 +95,35 @@ func symAlign(alphabet, n, L int, ok func(uint8) bool) align.Alignment {
 	return al
 }
 
+// symAlignPinned is symAlign for residues drawn from a small set, with an explicit case split per
+// residue: on every path each residue is one concrete member of the set (to be used with merge=0
+// by the harnesses of functions that tabulate all 130 character codes, where a symbolic table index
+// makes every later table test a solver query).
+func symAlignPinned(alphabet, n, L int, set []uint8) align.Alignment {
+	al := align.NewAlign(alphabet)
+	for i := 0; i < n; i++ {
+		s := make([]uint8, L)
+		for j := range s {
+			b := nondetByte()
+			found := false
+			for _, c := range set {
+				if b == c {
+					s[j] = c
+					found = true
+					break
+				}
+			}
+			assume(found)
+		}
+		if err := al.AddSequenceChar(names[i], s, ""); err != nil {
+			panic("harness: cannot build alignment: " + err.Error())
+		}
+	}
+	return al
+}
+
+var fewSet = []uint8{'A', 'C', 'a', 'N', '-'}
+
 // query: build, snapshot, call, snapshot again.
 func query(alphabet, minN, maxN, minL, maxL int, ok func(uint8) bool, call func(al align.Alignment, n, L int)) {
 	n := nondetRange(minN, maxN)
@@ -109,6 +134,19 @@ func query(alphabet, minN, maxN, minL, maxL int, ok func(uint8) bool, call func(
 	verifReach("called")
 	verifAssert(same(before, snapshot(al)), "input unchanged by the query")
 }
+
+// queryPinned is query with symAlignPinned (use with merge=0).
+func queryPinned(alphabet, minN, maxN, minL, maxL int, set []uint8, call func(al align.Alignment, n, L int)) {
+	n := nondetRange(minN, maxN)
+	L := nondetRange(minL, maxL)
+	al := symAlignPinned(alphabet, n, L, set)
+	before := snapshot(al)
+	call(al, n, L)
+	verifReach("called")
+	verifAssert(same(before, snapshot(al)), "input unchanged by the query")
+}
+
+var acgtSet = []uint8{'A', 'C', 'G', 'T', 'N', '-'}
 
 // ---------------------------------------------------------------------------------------------
 // writers
@@ -215,25 +253,24 @@ func H_C19_query_paml() {
 // ---------------------------------------------------------------------------------------------
 // statistics (the functions of C14)
 
-// few: a small residue alphabet with both cases, the gap and N (keeps the number of distinct
-// presence patterns small for the functions that tabulate every character).
-func few(c uint8) bool {
-	return c == 'A' || c == 'C' || c == 'a' || c == 'N' || c == '-'
-}
-
 // H_C19_query_charstats: CharStats and UniqueCharacters leave their input unchanged.
-// bounds: n<=2, L<=2, residues symbolic over {A, C, a, N, -}
+// bounds: n<=2, L<=2, every residue any of {A, C, a, N, -} (explicit case split: 5^(n*L) residue assignments per shape)
 // outside: n>2, L>2, other residues (the functions tabulate characters one by one; a larger residue set multiplies the cases, not the behaviours)
+//verif: merge=0
 func H_C19_query_charstats() {
 	op := nondetRange(0, 1)
-	query(align.NUCLEOTIDS, 1, 2, 1, 2, few, func(al align.Alignment, n, L int) {
-		if op == 0 {
-			m := al.CharStats()
-			verifAssert(m != nil, "result")
-		} else {
-			al.UniqueCharacters()
-		}
-	})
+	n := nondetRange(1, 2)
+	L := nondetRange(1, 2)
+	al := symAlignPinned(align.NUCLEOTIDS, n, L, fewSet)
+	before := snapshot(al)
+	if op == 0 {
+		m := al.CharStats()
+		verifAssert(m != nil, "result")
+	} else {
+		al.UniqueCharacters()
+	}
+	verifReach("called")
+	verifAssert(same(before, snapshot(al)), "input unchanged by the query")
 }
 
 // H_C19_query_charstats_row_site: CharStatsSeq and CharStatsSite leave their input unchanged.
@@ -302,15 +339,16 @@ func H_C19_query_sitecounts() {
 }
 
 // H_C19_query_informative: InformativeSites leaves its input unchanged.
-// bounds: n<=4, L<=1 and n<=2, L<=2; residues symbolic over {A, C, a, N, -}; both alphabets
+// bounds: n<=3, L=1 and n<=2, L=2; every residue any of {A, C, a, N, -} (explicit case split); both alphabets
 // outside: larger shapes, other residues
+//verif: merge=0
 func H_C19_query_informative() {
 	alpha := []int{align.NUCLEOTIDS, align.AMINOACIDS}[nondetRange(0, 1)]
-	maxN, maxL := 4, 1
+	maxN, maxL := 3, 1
 	if nondetRange(0, 1) == 1 {
 		maxN, maxL = 2, 2
 	}
-	query(alpha, 1, maxN, maxL, maxL, few, func(al align.Alignment, n, L int) {
+	queryPinned(alpha, 1, maxN, maxL, maxL, fewSet, func(al align.Alignment, n, L int) {
 		al.InformativeSites()
 	})
 }
@@ -326,14 +364,35 @@ func H_C19_query_conservation() {
 	})
 }
 
-// H_C19_query_pssm: Pssm (every normalisation, log on/off, pseudo count 0, 1/2, 1) leaves its input unchanged.
-// bounds: n<=2, L<=2, residues A C G T N - (upper case), nucleotide alphabet
-// outside: n>2, L>2; numeric values (logarithm uninterpreted)
+// H_C19_query_pssm: Pssm (every normalisation; plain counts without pseudo count, log scale with pseudo count 1/2) leaves its input unchanged.
+// bounds: shapes 2x1, 1x2 and 1x1, every residue any of A C G T N - (explicit case split), nucleotide alphabet
+// outside: larger shapes; numeric values (logarithm uninterpreted)
+//verif: merge=0
 func H_C19_query_pssm() {
 	norm := nondetRange(0, 4)
 	lg := nondetRange(0, 1) == 1
+	pc := 0.0
+	if lg {
+		pc = 0.5
+	}
+	maxN, maxL := 2, 1
+	if nondetRange(0, 1) == 1 {
+		maxN, maxL = 1, 2
+	}
+	queryPinned(align.NUCLEOTIDS, 1, maxN, maxL, maxL, acgtSet, func(al align.Alignment, n, L int) {
+		al.Pssm(lg, pc, norm)
+	})
+}
+
+// H_C19_query_pssm_deep: as H_C19_query_pssm with n<=2, L<=2 and pseudo counts 0, 1/2, 1.
+// bounds: n<=2, L<=2
+// outside: larger shapes
+//verif: tier=thorough merge=0
+func H_C19_query_pssm_deep() {
+	norm := nondetRange(0, 4)
+	lg := nondetRange(0, 1) == 1
 	pc := []float64{0, 0.5, 1}[nondetRange(0, 2)]
-	query(align.NUCLEOTIDS, 1, 2, 1, 2, acgt, func(al align.Alignment, n, L int) {
+	queryPinned(align.NUCLEOTIDS, 1, 2, 1, 2, acgtSet, func(al align.Alignment, n, L int) {
 		al.Pssm(lg, pc, norm)
 	})
 }
@@ -347,23 +406,42 @@ func H_C19_query_diffs() {
 	})
 }
 
-// H_C19_query_unique: NumGapsUniquePerSequence / NumMutationsUniquePerSequence (without and with a profile computed from the alignment itself) and NewCountProfileFromAlignment leave their input unchanged.
-// bounds: n<=3, L<=2, residues printable ASCII
-// outside: n>3, L>2
-func H_C19_query_unique() {
-	op := nondetRange(0, 1)
+// H_C19_query_unique_gaps: NumGapsUniquePerSequence (without and with a profile computed from the alignment itself by NewCountProfileFromAlignment) leaves its input unchanged.
+// bounds: n<=3, L=1 and n<=2, L=2; every residue any of {A, C, a, N, -} (explicit case split)
+// outside: larger shapes, other residues
+//verif: merge=0
+func H_C19_query_unique_gaps() {
 	withProfile := nondetRange(0, 1) == 1
-	query(align.NUCLEOTIDS, 1, 3, 1, 2, printable, func(al align.Alignment, n, L int) {
+	maxN, maxL := 3, 1
+	if nondetRange(0, 1) == 1 {
+		maxN, maxL = 2, 2
+	}
+	queryPinned(align.NUCLEOTIDS, 1, maxN, maxL, maxL, fewSet, func(al align.Alignment, n, L int) {
 		var p *align.CountProfile
 		if withProfile {
 			p = align.NewCountProfileFromAlignment(al)
 		}
-		var err error
-		if op == 0 {
-			_, _, _, err = al.NumGapsUniquePerSequence(p)
-		} else {
-			_, _, _, err = al.NumMutationsUniquePerSequence(p)
+		_, _, _, err := al.NumGapsUniquePerSequence(p)
+		verifAssert(err == nil, "profile of the same length accepted")
+	})
+}
+
+// H_C19_query_unique_mutations: NumMutationsUniquePerSequence (without and with a profile of the alignment itself) leaves its input unchanged.
+// bounds: n<=3, L=1 and n<=2, L=2; every residue any of {A, C, a, N, -} (explicit case split)
+// outside: larger shapes, other residues
+//verif: merge=0
+func H_C19_query_unique_mutations() {
+	withProfile := nondetRange(0, 1) == 1
+	maxN, maxL := 3, 1
+	if nondetRange(0, 1) == 1 {
+		maxN, maxL = 2, 2
+	}
+	queryPinned(align.NUCLEOTIDS, 1, maxN, maxL, maxL, fewSet, func(al align.Alignment, n, L int) {
+		var p *align.CountProfile
+		if withProfile {
+			p = align.NewCountProfileFromAlignment(al)
 		}
+		_, _, _, err := al.NumMutationsUniquePerSequence(p)
 		verifAssert(err == nil, "profile of the same length accepted")
 	})
 }
@@ -437,11 +515,11 @@ func pwalignBody(maxL int) {
 // ---------------------------------------------------------------------------------------------
 // copy-producing operations seen as queries
 
-// H_C19_query_copies: SubAlign, SelectSites, Transpose, Clone, CloneSeqBag, Unalign leave the alignment they are called on unchanged.
+// H_C19_query_copies: SubAlign, SelectSites, Transpose, Clone, CloneSeqBag leave the alignment they are called on unchanged.
 // bounds: n<=3, L<=4, residues printable ASCII; SubAlign: every valid window; SelectSites: every list of <=2 valid sites
 // outside: n>3, L>4, longer site lists
 func H_C19_query_copies() {
-	op := nondetRange(0, 5)
+	op := nondetRange(0, 4)
 	query(align.AMINOACIDS, 1, 3, 1, 4, printable, func(al align.Alignment, n, L int) {
 		var err error
 		switch op {
@@ -461,30 +539,61 @@ func H_C19_query_copies() {
 			_, err = al.Clone()
 		case 4:
 			_, err = al.CloneSeqBag()
-		case 5:
-			u := al.Unalign()
-			verifAssert(u.NbSequences() == n, "one unaligned sequence per row")
 		}
 		verifAssert(err == nil, "valid arguments accepted")
 	})
 }
 
-// H_C19_query_seq: Sequence.Clone and Sequence.Translate leave the sequence (and the alignment holding it) unchanged.
-// bounds: n<=2 rows, L in 3..4, residues A C G T N -; Translate: phase 0..1, the three genetic codes
-// outside: longer sequences, IUPAC ambiguity codes other than N
-func H_C19_query_seq() {
-	op := nondetRange(0, 1)
-	phase := nondetRange(0, 1)
-	code := []int{align.GENETIC_CODE_STANDARD, align.GENETIC_CODE_VETEBRATE_MITO, align.GENETIC_CODE_INVETEBRATE_MITO}[nondetRange(0, 2)]
-	query(align.NUCLEOTIDS, 1, 2, 3, 4, acgt, func(al align.Alignment, n, L int) {
+// H_C19_query_unalign: Unalign leaves the alignment it is called on unchanged.
+// bounds: n<=3, L<=3, residues printable ASCII (gaps anywhere)
+// outside: n>3, L>3 (thorough twin: L=4)
+func H_C19_query_unalign() {
+	query(align.AMINOACIDS, 1, 3, 0, 3, printable, func(al align.Alignment, n, L int) {
+		u := al.Unalign()
+		verifAssert(u.NbSequences() == n, "one unaligned sequence per row")
+	})
+}
+
+// H_C19_query_unalign_deep: as H_C19_query_unalign with L=4.
+// bounds: n<=3, L=4
+// outside: larger shapes
+//verif: tier=thorough
+func H_C19_query_unalign_deep() {
+	query(align.AMINOACIDS, 1, 3, 4, 4, printable, func(al align.Alignment, n, L int) {
+		u := al.Unalign()
+		verifAssert(u.NbSequences() == n, "one unaligned sequence per row")
+	})
+}
+
+// H_C19_query_seqclone: Sequence.Clone leaves the sequence (and the alignment holding it) unchanged.
+// bounds: n<=3 rows, L<=4, residues printable ASCII, every row
+// outside: larger shapes
+func H_C19_query_seqclone() {
+	query(align.NUCLEOTIDS, 1, 3, 0, 4, printable, func(al align.Alignment, n, L int) {
 		s, ok := al.Sequence(nondetRange(0, n-1))
 		verifAssert(ok, "row exists")
-		if op == 0 {
-			c := s.Clone()
-			verifAssert(c.Length() == L && c.Name() == s.Name(), "clone has the same name and length")
-		} else {
-			tr, err := s.Translate(phase, code)
+		c := s.Clone()
+		verifAssert(c.Length() == L && c.Name() == s.Name(), "clone has the same name and length")
+	})
+}
+
+func acgtgap(c uint8) bool { return c == 'A' || c == 'C' || c == 'G' || c == 'T' || c == '-' }
+
+// H_C19_query_seqtranslate: Sequence.Translate leaves the sequence (and the alignment holding it) unchanged.
+// bounds: n<=2 rows (the last one is translated), L in 3..4, residues A C G T -; phase 0..1, the three genetic codes
+// outside: longer sequences, IUPAC ambiguity codes
+func H_C19_query_seqtranslate() {
+	phase := nondetRange(0, 1)
+	code := []int{align.GENETIC_CODE_STANDARD, align.GENETIC_CODE_VETEBRATE_MITO, align.GENETIC_CODE_INVETEBRATE_MITO}[nondetRange(0, 2)]
+	query(align.NUCLEOTIDS, 1, 2, 3, 4, acgtgap, func(al align.Alignment, n, L int) {
+		s, ok := al.Sequence(n - 1)
+		verifAssert(ok, "row exists")
+		tr, err := s.Translate(phase, code)
+		if L >= 3+phase {
+			verifReach("translated")
 			verifAssert(err == nil && tr != nil, "nucleotide sequence translated")
+		} else {
+			verifAssert(err != nil, "sequence shorter than one codon after the phase is rejected")
 		}
 	})
 }
@@ -574,42 +683,42 @@ func independent(op, maxN, maxL int) {
 }
 
 // H_C19_independent_clone: a Clone shares nothing with its source.
-// bounds: n<=2, L<=3, residues IUPAC nucleotides both cases and '-'; one mutation of the copy then one of the original out of SetSequenceChar(symbolic row, site, byte), ReplaceChar(row name, symbolic site, byte), ReverseComplement, ToLower
-// outside: n>2, L>3 (thorough twin: n<=3, L<=4), sequences of several mutations
-func H_C19_independent_clone() { independent(cpClone, 2, 3) }
+// bounds: n<=3, L<=4, residues IUPAC nucleotides both cases and '-'; one mutation of the copy then one of the original out of SetSequenceChar(symbolic row, site, byte), ReplaceChar(row name, symbolic site, byte), ReverseComplement, ToLower
+// outside: n>3, L>4, sequences of several mutations
+func H_C19_independent_clone() { independent(cpClone, 3, 4) }
 
 // H_C19_independent_cloneseqbag: a CloneSeqBag shares nothing with its source.
-// bounds: n<=2, L<=3, residues IUPAC nucleotides and '-'; mutations SetSequenceChar(symbolic), ReverseComplement, ToLower
-// outside: n>2, L>3 (thorough twin)
-func H_C19_independent_cloneseqbag() { independent(cpCloneSeqBag, 2, 3) }
+// bounds: n<=3, L<=4, residues IUPAC nucleotides and '-'; mutations SetSequenceChar(symbolic), ReverseComplement, ToLower
+// outside: n>3, L>4
+func H_C19_independent_cloneseqbag() { independent(cpCloneSeqBag, 3, 4) }
 
 // H_C19_independent_subalign: a SubAlign (every valid non-empty window) shares nothing with its source.
-// bounds: n<=2, L<=3, residues IUPAC nucleotides and '-'; the four mutations
-// outside: n>2, L>3 (thorough twin)
-func H_C19_independent_subalign() { independent(cpSubAlign, 2, 3) }
+// bounds: n<=3, L<=4, residues IUPAC nucleotides and '-'; the four mutations
+// outside: n>3, L>4
+func H_C19_independent_subalign() { independent(cpSubAlign, 3, 4) }
 
 // H_C19_independent_selectsites: a SelectSites result (1..2 sites, repeats allowed) shares nothing with its source.
-// bounds: n<=2, L<=3, residues IUPAC nucleotides and '-'; the four mutations
-// outside: n>2, L>3 (thorough twin), longer site lists
-func H_C19_independent_selectsites() { independent(cpSelectSites, 2, 3) }
+// bounds: n<=3, L<=4, residues IUPAC nucleotides and '-'; the four mutations
+// outside: n>3, L>4, longer site lists
+func H_C19_independent_selectsites() { independent(cpSelectSites, 3, 4) }
 
 // H_C19_independent_transpose: a Transpose result shares nothing with its source.
-// bounds: n<=2, L<=3, residues IUPAC nucleotides and '-'; the four mutations
-// outside: n>2, L>3 (thorough twin)
-func H_C19_independent_transpose() { independent(cpTranspose, 2, 3) }
+// bounds: n<=3, L<=4, residues IUPAC nucleotides and '-'; the four mutations
+// outside: n>3, L>4
+func H_C19_independent_transpose() { independent(cpTranspose, 3, 4) }
 
-// H_C19_independent_deep: the five copy operations with n<=3, L<=4.
-// bounds: n<=3, L<=4, residues IUPAC nucleotides and '-'
+// H_C19_independent_deep: the five copy operations with n<=4, L<=5.
+// bounds: n<=4, L<=5, residues IUPAC nucleotides and '-'
 // outside: larger shapes
 //verif: tier=thorough
-func H_C19_independent_deep() { independent(nondetRange(0, 4), 3, 4) }
+func H_C19_independent_deep() { independent(nondetRange(0, 4), 4, 5) }
 
 // H_C19_independent_seqclone: a Sequence.Clone shares nothing with the sequence: writing into / reversing / complementing the clone leaves the alignment unchanged and vice versa.
-// bounds: n<=2, L<=3, residues IUPAC nucleotides and '-'
-// outside: n>2, L>3
+// bounds: n<=3, L<=4, residues IUPAC nucleotides and '-'
+// outside: n>3, L>4
 func H_C19_independent_seqclone() {
-	n := nondetRange(1, 2)
-	L := nondetRange(1, 3)
+	n := nondetRange(1, 3)
+	L := nondetRange(1, 4)
 	al := symAlign(align.NUCLEOTIDS, n, L, iupac)
 	r := nondetRange(0, n-1)
 	s, _ := al.Sequence(r)
